@@ -321,6 +321,24 @@ def oracle_empty():
         X = ss.infer_domain(y[0], [2 - y[0], y[0] - 1], [])
         if X is None:
             return 'non-empty domain rejected'
+        # a single inferred constraint can be infeasible on its own: e^x + e^-x <= 1 has no solution
+        try:
+            ss.infer_domain(y[0], [1 - y[0] - y[0] ** -1], [])
+            return 'an empty inferred domain {x : e^x + e^-x <= 1} (a single constraint) was not detected at construction'
+        except RuntimeError:
+            pass
+        # a SigDomain that is re-defined describes the new set in all three views (no stale answers)
+        import sageopt.coniclifts as cl
+        from sageopt.symbolic.signomials import SigDomain
+        xs = cl.Variable(shape=(2,), name='redef_x')
+        D = SigDomain(2)
+        D.parse_coniclifts_constraints([xs <= 0, xs >= -1])
+        first = D.suppfunc(np.array([1.0, 1.0]))
+        D.parse_coniclifts_constraints([xs <= 1, xs >= -1])
+        second = D.suppfunc(np.array([1.0, 1.0]))
+        if abs(first - 0.0) > 1e-5 or abs(second - 2.0) > 1e-5:
+            return ('suppfunc([1,1]) of {-1 <= x <= 0} is %r and, after re-defining the same SigDomain as {-1 <= x <= 1}, %r (expected 0 and 2)'
+                    % (first, second))
         # a component of x that no constraint mentions: X is unbounded along it (fixed 0520ccb; kept as a directed case)
         y2 = so.standard_sig_monomials(2)
         X2 = ss.infer_domain(y2[0], [1 - y2[0]], [])
